@@ -33,7 +33,7 @@ func (s Sort) sfx() string {
 	case SSeqI:
 		return "I"
 	}
-	panic("not a seq sort: " + string(s))
+	panic(unsupported{"a sequence nested deeper than the encoding supports (sort " + string(s) + " where a sequence sort is needed, e.g. [][][]byte)"})
 }
 
 func (s Sort) elem() Sort {
